@@ -24,8 +24,11 @@ def isolated(a, d, meta, props, patch):
     shutil.rmtree(base, ignore_errors=True)
     os.makedirs(base)
     wt = os.path.join(base, "repo")
-    sh("git", "-C", REPO, "worktree", "prune")
-    r = sh("git", "-C", REPO, "worktree", "add", "-q", "--detach", wt, "HEAD")
+    import fcntl
+    with open("/tmp/seedrun/.lock", "w") as lk:  # worktree bookkeeping is not safe against concurrent prune + add
+        fcntl.flock(lk, fcntl.LOCK_EX)
+        sh("git", "-C", REPO, "worktree", "prune")
+        r = sh("git", "-C", REPO, "worktree", "add", "-q", "--detach", wt, "HEAD")
     results = {}
     try:
         r = sh("git", "-C", wt, "apply", "--whitespace=nowarn", patch)
@@ -46,7 +49,9 @@ def isolated(a, d, meta, props, patch):
             results[p] = {"exit": r.returncode, "wall_s": round(time.time() - t0, 1), "line": first, "detail": detail[:400]}
             print(f"{a.sid} {p} exit={r.returncode} {time.time()-t0:.1f}s {first}\n   {detail[:300]}")
     finally:
-        sh("git", "-C", REPO, "worktree", "remove", "--force", wt)
+        with open("/tmp/seedrun/.lock", "w") as lk:
+            fcntl.flock(lk, fcntl.LOCK_EX)
+            sh("git", "-C", REPO, "worktree", "remove", "--force", wt)
         shutil.rmtree(base, ignore_errors=True)
     out = {"seed": a.sid, "tier": a.tier, "verif_seed": a.seed, "isolated": True, "results": results,
            "detected": any(v["exit"] == 1 for v in results.values())}
